@@ -694,6 +694,9 @@ fn aborted_uploads(dir: &PathBuf, verdict: &mut Verdict, runs: &mut u64) {
                                           if clean { "clean-on-error" } else { "keep-on-error" }, if then_error { "ERROR" } else { "silence" });
                         if joined.is_none() {
                             verdict.violations.push(("C07", format!("{ctx}: the receiver neither completed nor gave up within 25 s")));
+                            if clean && std::fs::metadata(&path).is_ok() {
+                                verdict.violations.push(("C13", format!("{ctx}: the receiver never gives up, so the partial file is still there after 25 s")));
+                            }
                             continue;
                         }
                         let stored = std::fs::read(&path).ok();
